@@ -41,9 +41,28 @@ pub fn with_status(cfg: &Cfg, status: u8) -> Cfg {
     c
 }
 
+/// history prefix: /a (one cluster + 100 bytes) and /d/a exist, then a clean remount: the explored part of
+/// every history starts with a fresh mount, so the first modifying call of the session is an explored one
+pub fn populate_prefix(cs: u32) -> Vec<Op> {
+    let r = harness::sess::DirRef::Root;
+    vec![
+        Op::CreateFile { base: r, path: "a".into(), keep: Some(0) },
+        Op::WriteAll { h: 0, len: cs + 100 },
+        Op::CreateDir { base: r, path: "d".into(), keep: None },
+        Op::CreateFile { base: r, path: "d/a".into(), keep: Some(1) },
+        Op::WriteAll { h: 1, len: 3 },
+        Op::Remount,
+    ]
+}
+
 pub fn specs(tier: &str) -> Vec<ExpSpec> {
     let th = is_thorough(tier);
     let mut v = Vec::new();
+    for ft in [FatType::Fat12, FatType::Fat32] {
+        let mut c = vol::tiny_with(ft, 8, 16);
+        c.name = format!("{}-pop", c.name);
+        v.push(ExpSpec::new(c, alphabet(512), if th { 5 } else { 3 }).with_prefix(populate_prefix(512)));
+    }
     for ft in [FatType::Fat12, FatType::Fat16, FatType::Fat32] {
         let cfg = vol::tiny_with(ft, 8, 16);
         for status in 0..4u8 {
